@@ -165,13 +165,12 @@ Inductive rule_res :=
 | RErr (ret : option err) (pipeline : option err) (* (nil, ret), pipeline error recorded *)
 | RPanic (v : option err).
 
-(** the encoded-slash check reads request.URL.RawPath, which the Envoy request
-    context never fills in: under Envoy it cannot fire *)
+(** the encoded-slash check reads request.URL.RawPath.  Since the fix: commit
+    ae6db4f (finding C13-F4) the Envoy request context fills RawPath as the HTTP
+    contexts do, so the check fires on all three entry points alike ([en] is kept
+    for the record: before that commit it could not fire under Envoy). *)
 Definition slash_rejected (en : entry) (r : rule) (q : request) : bool :=
-  match en with
-  | Envoy => false
-  | _ => slashes_off r && q_encoded_slash q
-  end.
+  slashes_off r && q_encoded_slash q.
 
 Definition encoded_slash_error : err := Chain [Sentinel KArgument] false.
 
